@@ -1017,50 +1017,57 @@ void h_setstring_jsonstring(void) {
 
 /* =================================================================================================================== */
 #ifdef U_POOL_E2E
-/* C06/C14 end to end on the real StringPool (real get / stringEquals / create / stringGetChars / dereference; only the
- * allocator is a stub): two strings are added, then their users disappear one after the other.
- * Bounded: two strings of 0..2 symbolic bytes (embedded NUL allowed), pool initially empty. */
+/* C06/C14 end to end on the real StringPool (real get / stringEquals / create / stringGetChars / dereference; only
+ * the allocator is a stub): a pool holding one string A with refs0 users receives a string B, then users disappear.
+ * Bounded: A and B of 0..2 symbolic bytes (embedded NUL allowed), pool of one node before the call.
+ * (cbmc 6.11 note: the char data[1] trailing array is only modelled faithfully in blocks of NON-constant size, and indices
+ * into it must not be literal constants > 0 -- hence `one`.) */
 void h_pool_share_release(void) {
   struct StringPool sp;
-  sp.strings_ = 0;
   struct Allocator *a = verif_allocator(0);
   g_expected_allocator = a;
-  char A[2], B[2];
-  A[0] = in_char(); A[1] = in_char(); B[0] = in_char(); B[1] = in_char();
+  char B[2];
+  B[0] = in_char(); B[1] = in_char();
   size_t nA = in_size(), nB = in_size();
   __CPROVER_assume(nA <= 2 && nB <= 2);
-  _Bool equal = nA == nB && (nA < 1 || A[0] == B[0]) && (nA < 2 || A[1] == B[1]);
-  struct SizedRamString sA, sB;
-  sA.str_ = A; sA.size_ = nA; sB.str_ = B; sB.size_ = nB;
-  Node *r1 = StringPool__add_SizedRamString(&sp, sA, a);
-  if (!r1) { CHECK(sp.strings_ == 0 && g_live_blocks == 0, "C05: failed first add leaves the pool empty"); return; }
+  size_t one = 1 + (nA > 5);
+  ref_t refs0 = (ref_t)in_u32();
+  __CPROVER_assume(refs0 >= 1 && (uint64_t)refs0 < REF_MAX); /* WF_STRINGS + caller obligation L-C06 */
+  Node *r1 = mk_real_node(nA, refs0);
+  char a0 = in_char(), a1 = in_char();
+  if (nA > 0) r1->data[one - 1] = a0;
+  if (nA > 1) r1->data[one] = a1;
+  r1->data[nA] = 0;
+  sp.strings_ = r1;
+  _Bool equal = nA == nB && (nA < 1 || a0 == B[0]) && (nA < 2 || a1 == B[1]);
+  struct SizedRamString sB;
+  sB.str_ = B; sB.size_ = nB;
   Node *r2 = StringPool__add_SizedRamString(&sp, sB, a);
-  COVER(equal && nA == 2); COVER(!equal && r2 != 0 && nA == nB); COVER(!equal && r2 == 0); COVER(equal && nA == 0);
+  COVER(equal && nA == 2); COVER(!equal && r2 != 0 && nA == nB && nA == 2); COVER(!equal && r2 == 0); COVER(equal && nA == 0); COVER(equal && refs0 == 1);
+  COVER(!equal && nA == 2 && nB == 2 && a0 == B[0]); COVER(equal && nA == 2 && a0 == 0);
   if (equal) {
-    CHECK(r2 == r1 && g_alloc_calls == 1 && g_live_blocks == 1, "C06: equal copied strings are stored once (no second allocation, cannot fail)");
+    CHECK(r2 == r1 && g_alloc_calls == 0 && g_live_blocks == 1, "C06: equal copied strings are stored once (no second allocation, cannot fail)");
 #ifdef CANARY_POOL_E2E
-    CHECK(r1->references == 2 + (nA == 1), "C06: the shared node counts its two users");
+    CHECK((uint64_t)r1->references == (uint64_t)refs0 + 1 + (nA == 1), "C06: the shared node counts one more user");
 #else
-    CHECK(r1->references == 2, "C06: the shared node counts its two users");
+    CHECK((uint64_t)r1->references == (uint64_t)refs0 + 1, "C06: the shared node counts one more user");
 #endif
-    StringPool__dereference(&sp, r1->data, a);
-    CHECK(g_live_blocks == 1 && g_dealloc_calls == 0 && sp.strings_ == r1 && r1->references == 1, "C14: removing one user leaves the other intact");
-    CHECK((size_t)r1->length == nB && (nB < 1 || r1->data[0] == B[0]) && (nB < 2 || r1->data[1] == B[1]) && r1->data[nB] == 0, "the remaining user still sees its string");
     StringPool__dereference(&sp, r2->data, a);
-    CHECK(g_live_blocks == 0 && g_dealloc_calls == 1 && sp.strings_ == 0, "C06: the block is released when the last user disappears, exactly once");
+    CHECK(g_live_blocks == 1 && g_dealloc_calls == 0 && sp.strings_ == r1 && r1->references == refs0, "C14: removing one user leaves the others intact");
+    CHECK((size_t)r1->length == nA && (nA < 1 || r1->data[one - 1] == a0) && (nA < 2 || r1->data[one] == a1) && r1->data[nA] == 0, "the remaining users still see their string");
+    /* (the release of a shared node by its LAST user is pool_dereference; doing it here too cost cbmc > 100 s) */
   } else {
-    CHECK(g_alloc_calls == 2, "different strings need a block each");
+    CHECK(g_alloc_calls == 1, "a different string needs its own block");
     if (r2) {
-      CHECK(r2 != r1 && g_live_blocks == 2 && r1->references == 1 && r2->references == 1, "two nodes, one user each");
-      CHECK((size_t)r2->length == nB && (nB < 1 || r2->data[0] == B[0]) && (nB < 2 || r2->data[1] == B[1]) && r2->data[nB] == 0, "second copy equals its source");
-      StringPool__dereference(&sp, r1->data, a);
-      CHECK(g_live_blocks == 1 && g_dealloc_calls == 1 && sp.strings_ == r2 && r2->next == 0, "releasing one string leaves the other pooled");
-      CHECK((size_t)r2->length == nB && (nB < 1 || r2->data[0] == B[0]) && (nB < 2 || r2->data[1] == B[1]), "C14: and intact");
-      StringPool__clear(&sp, a);
-      CHECK(g_live_blocks == 0 && sp.strings_ == 0 && g_dealloc_calls == 2, "C06: clear releases the rest exactly once");
+      CHECK(r2 != r1 && g_live_blocks == 2 && r1->references == refs0 && r2->references == 1, "two nodes; the new one has one user");
+      CHECK(sp.strings_ == r2 && r2->next == r1, "linked at the head");
+      CHECK((size_t)r2->length == nB && (nB < 1 || r2->data[one - 1] == B[0]) && (nB < 2 || r2->data[one] == B[1]) && r2->data[nB] == 0, "C14: the copy equals its source");
+      StringPool__dereference(&sp, r2->data, a);
+      CHECK(g_live_blocks == 1 && g_dealloc_calls == 1 && sp.strings_ == r1 && r1->references == refs0, "C06: the copy is released with its only user; the other string stays pooled");
+      CHECK((size_t)r1->length == nA && (nA < 1 || r1->data[one - 1] == a0) && (nA < 2 || r1->data[one] == a1), "C14: and intact");
     } else {
-      CHECK(sp.strings_ == r1 && r1->next == 0 && r1->references == 1 && g_live_blocks == 1, "C05: failed second add leaves the first string intact");
-      CHECK((size_t)r1->length == nA && (nA < 1 || r1->data[0] == A[0]) && (nA < 2 || r1->data[1] == A[1]), "C05: and its bytes unchanged");
+      CHECK(sp.strings_ == r1 && r1->next == 0 && r1->references == refs0 && g_live_blocks == 1, "C05: a failed add leaves the pool intact");
+      CHECK((size_t)r1->length == nA && (nA < 1 || r1->data[one - 1] == a0) && (nA < 2 || r1->data[one] == a1), "C05: and its bytes unchanged");
     }
   }
 }
